@@ -29,6 +29,7 @@ RULE += (' Also: generator handlers / clean-ups raising AttributeError, TypeErro
 RULE += (' Also: block exceptions whose instances are falsy (__len__ == 0 / __bool__ False).')
 RULE += (' Also: decorated function called with arguments it does not take (the TypeError is raised inside the context).')
 RULE += (' Also: the whole use made from inside an except block of the caller.')
+RULE += (' Also: Stop(Async)Iteration / RuntimeError subclasses with value equality; handlers raising a new but equal instance.')
 ASSUMPTIONS = ["contextlib.asynccontextmanager of the running interpreter is the reference",
                "__cause__/__context__ chains and messages are not compared"]
 EXHAUSTIVE = {"quick": True, "thorough": True}
@@ -42,6 +43,7 @@ class New(Exception):
 PRE = ["raise", "noyield", "yield"]
 VALUE = {0: "V", 1: None, 2: 0}  # what the generator yields to ``as``: also None / falsy
 HANDLER = ["none", "finally", "swallow", "reraise", "raise_new", "raise_new_from_none", "raise_same_type", "return",
+           "raise_copy", "raise_copy_from_none",
            "yield_again", "raise_sai", "raise_si",
            # the type and chaining of what the generator raises matters to the classification in __aexit__
            "raise_new_from_exc", "raise_runtime", "raise_runtime_from_none", "raise_runtime_from_exc",
@@ -76,6 +78,30 @@ class GeneratorExitSub(GeneratorExit):
     """Only GeneratorExit itself is documented to close the generator; a subclass is thrown in like any exception."""
 
 
+class EqStopAsync(StopAsyncIteration):
+    """A StopAsyncIteration subclass with VALUE equality (a result-carrying "done" signal compared by its payload)."""
+
+    def __eq__(self, other):
+        return type(other) is type(self) and other.args == self.args
+
+    def __hash__(self):
+        return hash(self.args)
+
+
+class EqStop(StopIteration):
+    def __eq__(self, other):
+        return isinstance(other, StopIteration)
+
+    __hash__ = None
+
+
+class EqRuntime(RuntimeError):
+    def __eq__(self, other):
+        return isinstance(other, RuntimeError)
+
+    __hash__ = None
+
+
 class FalsyError(Exception):
     """An exception INSTANCE that is falsy (an error that is also a sized collection of its sub-errors, empty here)."""
 
@@ -88,7 +114,8 @@ class FalsyRuntime(RuntimeError):
         return False
 
 
-OUTCOME = {"normal": None, "FalsyError": FalsyError, "FalsyRuntime": FalsyRuntime, "ValueError": ValueError, "Exception": Exception, "GeneratorExitSub": GeneratorExitSub,
+OUTCOME = {"normal": None, "FalsyError": FalsyError, "FalsyRuntime": FalsyRuntime,
+           "EqStopAsync": EqStopAsync, "EqStop": EqStop, "EqRuntime": EqRuntime, "ValueError": ValueError, "Exception": Exception, "GeneratorExitSub": GeneratorExitSub,
            "BaseException": BaseException, "StopIteration": StopIteration,
            "StopAsyncIteration": StopAsyncIteration, "RuntimeError": RuntimeError, "GeneratorExit": GeneratorExit,
            "KeyboardInterrupt": KeyboardInterrupt, "New": New,
@@ -195,6 +222,12 @@ def make(pre, handler, after, log, susp):
                     raise New("h") from None
                 elif handler == "raise_same_type":
                     raise type(e)("again")
+                elif handler == "raise_copy":
+                    # a NEW instance with the same arguments: for exception types with value equality it compares equal
+                    # to the block's exception - and is still another exception, raised by the generator
+                    raise type(e)(*e.args)
+                elif handler == "raise_copy_from_none":
+                    raise type(e)(*e.args) from None
                 elif handler == "return":
                     return
                 elif handler == "yield_again":
